@@ -1,6 +1,7 @@
 package demo
 
 import (
+	"bytes"
 	"fmt"
 	"strings"
 	"testing"
@@ -88,5 +89,38 @@ func TestPagesSelectionNumber(t *testing.T) {
 	}
 	if len(doc.Pages) != 1 || doc.Pages[0].Number != 3 {
 		t.Fatalf("Pages(3).Document() reports page number %d", doc.Pages[0].Number)
+	}
+}
+
+// The classic cross-reference section in its other legal spellings: the trailer dictionary on the line of the
+// keyword, spread over lines with a nested dictionary, and CR as the only end-of-line marker.
+func TestXRefTrailerSpellings(t *testing.T) {
+	base := simpleDoc(2)
+	want := ""
+	{
+		p := writeTemp(t, "base.pdf", base)
+		txt, _, err := tabula.Open(p).Text()
+		if err != nil {
+			t.Fatal(err)
+		}
+		want = txt
+	}
+	idx := bytes.LastIndex(base, []byte("trailer\n<<"))
+	if idx < 0 {
+		t.Fatal("writer changed")
+	}
+	sameLine := append(append([]byte{}, base[:idx]...), bytes.Replace(base[idx:], []byte("trailer\n<<"), []byte("trailer <<"), 1)...)
+	nested := append(append([]byte{}, base[:idx]...), bytes.Replace(base[idx:], []byte("trailer\n<< /Size"), []byte("trailer\n<< /Info << /Producer (x) >>\n/Size"), 1)...)
+	crOnly := bytes.ReplaceAll(base, []byte("\n"), []byte("\r")) // same length: offsets stay valid
+	for name, data := range map[string][]byte{"trailer and dictionary on one line": sameLine, "nested dictionary over two lines": nested, "CR-only line endings": crOnly} {
+		p := writeTemp(t, "v.pdf", data)
+		txt, _, err := tabula.Open(p).Text()
+		if err != nil {
+			t.Errorf("%s: %v", name, err)
+			continue
+		}
+		if txt != want {
+			t.Errorf("%s: text %q, want %q", name, txt, want)
+		}
 	}
 }
